@@ -6,8 +6,9 @@ import graphcorr as GC
 from common import cnat, clist, log, run_coqc
 
 TRUSTED_BASE = [
-    'the similarity measures and numpy argmax / the epsilon test are NOT modelled: they only decide which clusters merge; the theorems quantify over every decision '
-    'oracle, and the correspondence records the decisions of each real run (argmax wrapped from the harness) and replays them through the model',
+    'the similarity measures are NOT modelled: the theorems quantify over every decision oracle and over every stream of similarity values; the loop itself IS modelled in full '
+    '(symmetric matrix with zero diagonal, first-position argmax over the flattened matrix, epsilon test, the pops, the extra call of the arbitrary branch): the correspondence wraps the '
+    'sorter\'s measure, records the values it returns call by call (as ranks) and runs them through the model; where numpy.argmax can be intercepted the recorded decisions are replayed as well',
     'ids are compared by equality only and are rendered as naturals',
     'the property predicate (permutation of range(n), (0,) for one item, same answer for Identified inputs / a second call, input untouched, tuple result) is also '
     'evaluated directly on every implementation output',
@@ -15,7 +16,7 @@ TRUSTED_BASE = [
 ASSUMPTIONS = ['ids are nodes of the graph (otherwise the similarity measure raises)']
 THEOREM = 'C13_argsort_is_a_permutation / C13_single_item / C13_cluster_keeps_every_leaf / C13_find_indices'
 
-HEADER = '''From Coq Require Import List Arith.
+HEADER = '''From Coq Require Import List Arith ZArith.
 From Hpotk Require Import Base.Result Base.Emit Sort.Model Corr.C13.
 Import ListNotations.
 Open Scope list_scope.'''
@@ -30,16 +31,28 @@ def copt(r):
 
 
 def render_seq(ids, obs):
+    """the tie: the similarity VALUES the measure returned, call by call, through the model's own argmax / epsilon logic
+    (Sort.Argmax); when numpy's argmax could be intercepted as well and a decision was recorded for every round, the
+    recorded decisions are replayed too"""
     code = {}
     ids = [code.setdefault(G.key_of(x), len(code)) for x in ids]
-    return f'(SArgsort {clist([cnat(x) for x in ids])} {clist([cdec(d) for d in obs["decisions"]])} {copt(obs)})'
+    out = []
+    sims = obs.get('sims')
+    if sims is not None:
+        out.append(f'(SArgsortVals {clist([cnat(x) for x in ids])} {sims["zero"]}%Z {sims["eps"]}%Z {clist([str(v) + "%Z" for v in sims["vals"]])} {copt(obs)})')
+    if len(obs.get('decisions', [])) == max(len(ids) - 1, 0) or sims is None:
+        out.append(f'(SArgsort {clist([cnat(x) for x in ids])} {clist([cdec(d) for d in obs["decisions"]])} {copt(obs)})')
+    return out
 
 
 def render(case, obs):
     """a list of Coq terms: the main call and every follow-up call on the same sorter"""
     if case['kind'] == 'find_indices':
         return [f'(SFindIndices {clist([cnat(x) for x in case["source"]])} {clist([cnat(x) for x in case["ordered"]])} {copt(obs)})']
-    return [render_seq(case['ids'], obs)] + [render_seq(seq, o) for seq, o in zip(case.get('followups', []), obs.get('followups', []))]
+    out = render_seq(case['ids'], obs)
+    for seq, o in zip(case.get('followups', []), obs.get('followups', [])):
+        out += render_seq(seq, o)
+    return out
 
 
 def predicate_problems(case, obs):
@@ -84,7 +97,8 @@ def evaluate(chk, cases, tag='cases', shard=300):
         for t in terms[i]:
             flat.append(t)
             owner.append(i)
-    failing = {owner[j]: ['implementation output differs from the model replaying its own decisions']
+    MODEL_ONLY = 'implementation output differs from the model replaying its own decisions'
+    failing = {owner[j]: [MODEL_ONLY]
                for j in chk.coq_failing(HEADER, flat, 'check_scase', shard=shard, tag=tag)}
     terms = {i: terms[i][0] for i in live}
     for i in bad:
@@ -191,8 +205,22 @@ def model_answer(chk, term):
     return (r.stdout + r.stderr)[-1500:]
 
 
+def model_only(problems):
+    return all('differs from the model' in p for p in problems)
+
+
 def report(chk, cases, obs, failing, limit=3):
     seen = {}
+    # the property itself (a permutation, (0,) for one item, input untouched, same answer for identified objects and on a
+    # second call) is evaluated on the implementation's output; a run whose output only differs from the MODEL's order
+    # (another tie-break, another way of choosing the pair to merge) breaks the correspondence, not the property
+    mo = [i for i in failing if model_only(failing[i]) and cases[i]['kind'] != 'find_indices']
+    if mo:
+        i = min(mo, key=lambda j: len(json.dumps(cases[j])))
+        chk.correspondence_break('C13:correspondence', {'case': cases[i], 'impl': obs[i], 'cases_with_this_disagreement': len(mo), 'theorem': THEOREM,
+                                                        'broken': ['Corr.C13.check_scase: the model replaying the recorded decisions (np.argmax) yields another index tuple']},
+                                 what=f'C13:correspondence: the returned order differs from the model replaying the recorded decisions on {len(mo)} cases, e.g. ids={json.dumps(cases[i].get("ids"))}')
+    failing = {i: p for i, p in failing.items() if i not in set(mo)}
     for i in sorted(failing, key=lambda j: len(json.dumps(cases[j]))):
         c = cases[i]
         rep = c['kind'] != 'find_indices' and len({G.key_of(x) for x in c['ids']}) < len(c['ids'])
